@@ -89,7 +89,19 @@ VerifyRawBad(ev) ==
       ELSE IF ev.out = "True" THEN {"C02-accepted-a-signature-the-rule-rejects"}
       ELSE {"C02-undocumented-exception"}
 
+(* op = "detsign": deterministic signing; retries / ks = the retry_gen arguments and results of the recorded
+   generate_k calls of ONE signing call, out = the signature, same = a second call gave identical bytes *)
+DetSignBad(ev) ==
+  LET E == DigestToE(ev.digest, ev.allow)
+      m == Len(ev.ks)
+  IN  (IF ev.same THEN {} ELSE {"C04-deterministic-signature-not-repeatable"})
+      \cup (IF m >= 1 /\ ev.retries = [j \in 1..m |-> j - 1] THEN {} ELSE {"C04-retry_gen-sequence-is-not-0-1-2"})
+      \cup (IF m >= 1 /\ \A j \in 1..(m - 1) : Sign(ev.d, ev.ks[j], E.e).kind = "RSZeroError" THEN {}
+            ELSE {"C04-retried-although-the-nonce-gave-a-signature"})
+      \cup (IF m >= 1 /\ ev.out = Sign(ev.d, ev.ks[m], E.e) THEN {} ELSE {"C04-not-the-standard-signature-for-the-RFC-nonce"})
+
 Bad(ev) == CASE ev.op = "sign" -> SignBad(ev)
+             [] ev.op = "detsign" -> DetSignBad(ev)
              [] ev.op = "signnum" -> SignNumBad(ev)
              [] ev.op = "verifyraw" -> VerifyRawBad(ev)
              [] ev.op = "verify" -> VerifyBad(ev)
